@@ -551,12 +551,13 @@ func runAllowed(k kase, al allowed, o obs) bool {
 	return false
 }
 
-// defectPredict is NOT part of the oracle. It predicts what the two known
-// defects of the pinned tree make of a case - an alternative whose schemes are
-// consulted in order, where a scheme without authenticator is skipped and a nil
-// principal is overwritten by the next scheme's - and is used only to give a
-// violation that equals this prediction its narrow class.
-func defectPredict(k kase) (feature string, pred obs, ok bool) {
+// defectPredict is NOT part of the oracle. It predicts what the known defects
+// of the pinned tree make of a case - the alternatives are tried in list order, the
+// schemes of an alternative in evaluation order, where (allowUnreg) a scheme without
+// authenticator is skipped and (allowNil) a nil principal is overwritten by the next
+// scheme's - and is used only to give a violation that equals this prediction its
+// narrow class. feature names what the deciding alternative needed.
+func defectPredict(k kase, allowNil, allowUnreg bool) (feature string, pred obs, ok bool) {
 	for i := 0; i < int(k.nalts); i++ {
 		a := k.alts[i]
 		if a.n == 0 {
@@ -567,6 +568,9 @@ func defectPredict(k kase) (feature string, pred obs, ok bool) {
 			s := int(a.s[j])
 			if k.reg&(1<<uint(s)) == 0 {
 				hasUnreg, textSat = true, false
+				if !allowUnreg {
+					failed = true
+				}
 				continue
 			}
 			switch effective(k.out[s], i) {
@@ -575,6 +579,9 @@ func defectPredict(k kase) (feature string, pred obs, ok bool) {
 			case eNIL:
 				hasNil, textSat = true, false
 				last = 0
+				if !allowNil {
+					failed = true
+				}
 			default:
 				failed = true
 			}
@@ -599,6 +606,27 @@ func defectPredict(k kase) (feature string, pred obs, ok bool) {
 		return feature, obs{kind: obsRun, princ: last, scopes: altScopes[i][a.mask()]}, true
 	}
 	return "", obs{}, false
+}
+
+// Which of the two defects the tree under test has is established by two witness
+// probes before the exploration (main.go: calibrate); a tree in which one is
+// repaired is then classified against the model of the remaining one only.
+var treeOverwritesNil, treeSkipsUnregistered bool
+
+// matchesDefect: the observation is exactly what the defect model predicts.
+func matchesDefect(k kase, o obs, pred obs) bool {
+	switch {
+	case pred.kind == obsRun && o.kind == obsOther:
+		// admitted through the unsatisfied alternative, then binding/validation of the broken rest of the request answered
+		return k.level == lvlHandler && k.rest != restFine && o.handlerCalls == 0
+	case pred.kind != o.kind:
+		return false
+	case o.kind == obsRun:
+		return pred.princ == o.princ && pred.scopes == o.scopes && o.princCtx == o.princ && (k.level != lvlHandler || o.handlerCalls == 1)
+	case o.kind == obsRefused:
+		return pred.tag == o.tag && o.status == tagStatus[o.tag] && o.handlerCalls == 0 && o.consumerCalls == 0 && o.bodyBytes == 0
+	}
+	return false
 }
 
 func allowedFor(k kase, o obs) allowed {
@@ -670,19 +698,8 @@ func judge(k kase, o obs) (class string) {
 	if class == "" {
 		return ""
 	}
-	if feature, pred, ok := defectPredict(k); ok && o.orderOwned {
-		same := false
-		switch {
-		case pred.kind == obsRun && o.kind == obsOther:
-			// admitted through the unsatisfied alternative, then binding/validation of the broken rest of the request answered
-			same = k.level == lvlHandler && k.rest != restFine && o.handlerCalls == 0
-		case pred.kind != o.kind:
-		case o.kind == obsRun:
-			same = pred.princ == o.princ && pred.scopes == o.scopes && o.princCtx == o.princ && (k.level != lvlHandler || o.handlerCalls == 1)
-		case o.kind == obsRefused:
-			same = pred.tag == o.tag && o.status == tagStatus[o.tag] && o.handlerCalls == 0 && o.consumerCalls == 0 && o.bodyBytes == 0
-		}
-		if same {
+	if o.orderOwned && (treeSkipsUnregistered || treeOverwritesNil) {
+		if feature, pred, ok := defectPredict(k, treeOverwritesNil, treeSkipsUnregistered); ok && matchesDefect(k, o, pred) {
 			return "unsatisfied-alternative-decides/" + feature
 		}
 	}
